@@ -315,7 +315,7 @@ def check_names(case, ctx):
 
 
 def run(spec, ctx):
-    feats_all = ['unconn_in', 'unconn_out', 'ff_no_d', 'out_read', 'wiring', 'consts', 'floating']
+    feats_all = ['unconn_in', 'unconn_out', 'ff_no_d', 'out_read', 'wiring', 'consts', 'floating', 'ff_unread']
     for i in range(spec['n']):
         rng = random.Random(f'C17/{spec["seed"]}/{spec["shard"]}/{i}')
         feats = [f for f in feats_all if rng.random() < 0.4]
